@@ -732,6 +732,8 @@ fn spawn_async_ao_list_in_task'''),
         ('ansi-c-nonzero-escape-takes-four-digits', 'brush-core/src/escape.rs', "                    if taken_so_far < 3 && matches!(next_c, '0'..='7') {", "                    if taken_so_far <= 3 && matches!(next_c, '0'..='7') {"),
     ],
     'U16': [
+        ('trace-of-an-assignment-leaves-newlines-out-of-ansi-c-quoting', 'brush-core/src/variables.rs', "        let processed = escape::quote_if_needed(s, escape::QuoteMode::SingleQuote);\n        write!(f, \"{processed}\")", "        let options = escape::QuoteOptions {\n            preferred_mode: escape::QuoteMode::SingleQuote,\n            avoid_ansi_c_quoting_newline: true,\n            ..Default::default()\n        };\n        let processed = escape::quote(s, &options);\n        write!(f, \"{processed}\")"),
+        ('trace-of-an-assignment-writes-the-raw-value', 'brush-core/src/variables.rs', "        let processed = escape::quote_if_needed(s, escape::QuoteMode::SingleQuote);\n        write!(f, \"{processed}\")", "        let processed = s.to_string();\n        write!(f, \"{processed}\")"),
         ('tilde-not-flagged-at-start', 'brush-core/src/escape.rs', "    matches!(c, '#' | '~')", "    matches!(c, '#')"),
         ('bang-not-flagged', 'brush-core/src/escape.rs', "            | '!'\n", ""),
         ('c1-controls-get-byte-octal', 'brush-core/src/escape.rs', "    c.is_ascii_control()", "    c.is_control()"),
